@@ -26,7 +26,7 @@ out unterminated str[6] u;
 hook h;
 """
 
-INT_ATOMS = ["n", "m", "b", "w", "x.len", "$last", "7", "0x1f", "0b101", "'a'", "'\\n'", "x[0]", "x[n]", "u[2]"]
+INT_ATOMS = ["n", "m", "b", "w", "x.len", "$last", "7", "0x1f", "0b101", "'a'", "'\\n'", "x[0]", "x[n]", "u[2]", "0x80000000", "0xFFFFFFFF", "2147483648"]
 BOOL_ATOMS = ["f", "g", "true", "false"]
 # precedence levels (higher binds tighter), C style
 PREC = {"||": 1, "&&": 2, "|": 3, "^": 4, "&": 5, "==": 6, "!=": 6, "<": 6, ">": 6, "<=": 6, ">=": 6, "<<": 7, ">>": 7, "+": 8, "-": 8, "*": 9, "/": 9, "%": 9}
@@ -186,6 +186,13 @@ def _task(i):
                 return out
             T = tv.TV(c)
             T.run()
+            # (0) integer constants are emitted as plain decimal constants: in C a hexadecimal / octal constant or one with a suffix may have an
+            #     unsigned type where the decimal constant of the same value is signed, which changes the arithmetic around it; the terms compared
+            #     below treat a constant as its value, so the spelling is an obligation of its own
+            from ..csem import cparse
+            odd = sorted(set(t.text for t in cparse.tokenize(c.source) if t.kind == "num" and not __import__("re").fullmatch(r"0|[1-9][0-9]*", t.text)))
+            out["results"].append(("refine", " ".join(flags) + "/constants-are-plain-decimal", "refuted" if odd else "proved",
+                                   f"the emitted source spells integer constants as {odd[:4]}: their C type need not be the signed type of the decimal constant" if odd else "", 0.0))
             # (2) emitted C against nmfu's tree
             for r in T.results:
                 if r.family in ("refine", "consume"):
